@@ -197,6 +197,7 @@ Proof.
   - cbn. rewrite app_length. cbn. lia.
   - destruct (Nat.ltb (nf st) (length (closed st))) eqn:E; cbn; [apply Nat.ltb_lt in E; lia | lia].
   - destruct (Nat.ltb (nj st) (nf st)) eqn:E; cbn; [apply Nat.ltb_lt in E; lia | lia].
+  - destruct (Nat.eqb (nj st) (length (closed st)) && negb (existsb (has_mst m) (opn st))); cbn; [rewrite map_length|]; lia.
 Qed.
 
 Lemma wrun_inv ops : winv (wrun ops).
@@ -259,3 +260,136 @@ Lemma ex_frame_prefixes_rejected :
   forallb (fun k => match read_frame (firstn k ex_frame) with Incomplete => true | _ => false end) (seq 0 (length ex_frame)) = true
   /\ read_frame ex_frame = Record 1 [10; 20; 30; 40; 50; 60; 70]%N [].
 Proof. split; vm_compute; reflexivity. Qed.
+
+(* ---------- DROP MEASUREMENT ---------- *)
+Definition clean (m : N) (bs : list batch) : Prop := Forall (fun b => has_mst m b = false) bs.
+
+Lemma keep_not_clean m b : has_mst m (keep_not m b) = false.
+Proof.
+  unfold has_mst, keep_not. induction b as [|c b IH]; [reflexivity|]. cbn.
+  destruct (N.eqb (mst_of (fst c)) m) eqn:E; cbn; [exact IH | rewrite E; exact IH].
+Qed.
+
+Lemma keep_not_sub m m' b : has_mst m b = false -> has_mst m (keep_not m' b) = false.
+Proof.
+  unfold has_mst, keep_not. induction b as [|c b IH]; [reflexivity|]. cbn. intro H. apply orb_false_iff in H. destruct H as [H1 H2].
+  destruct (negb (N.eqb (mst_of (fst c)) m')); cbn; [rewrite H1; cbn|]; apply IH; exact H2.
+Qed.
+
+Lemma apply_batch_untouched st b k : (forall c, In c b -> key_eqb k (fst c) = false) -> apply_batch st b k = st k.
+Proof.
+  unfold apply_batch. revert st. induction b as [|c b IH]; intros st H; [reflexivity|]. cbn [fold_left].
+  rewrite IH by (intros c' Hc; apply H; right; exact Hc). rewrite put_apply. rewrite (H c (or_introl eq_refl)). reflexivity.
+Qed.
+
+Lemma key_eqb_eq a b : key_eqb a b = true -> a = b.
+Proof.
+  destruct a as [[a1 a2] a3], b as [[b1 b2] b3]. cbn. intro H. apply andb_prop in H. destruct H as [H H3]. apply andb_prop in H. destruct H as [H1 H2].
+  apply N.eqb_eq in H1, H2, H3. subst. reflexivity.
+Qed.
+
+Lemma clean_untouched m b k : has_mst m b = false -> mst_of k = m -> forall c, In c b -> key_eqb k (fst c) = false.
+Proof.
+  intros H Hk c Hc. destruct (key_eqb k (fst c)) eqn:E; [|reflexivity]. apply key_eqb_eq in E. exfalso.
+  unfold has_mst in H. assert (Hx : existsb (fun c0 => N.eqb (mst_of (fst c0)) m) b = true).
+  { apply existsb_exists. exists c. split; [exact Hc|]. rewrite <- E, Hk. apply N.eqb_refl. }
+  congruence.
+Qed.
+
+Lemma lww_clean m bs k : clean m bs -> mst_of k = m -> lww bs k = None.
+Proof.
+  intros Hc Hk. unfold lww, lww_from. assert (G : forall st, st k = None -> fold_left apply_batch bs st k = None).
+  { induction Hc as [|b bs Hb _ IH]; intros st Hst; [exact Hst|]. cbn [fold_left]. apply IH.
+    rewrite (apply_batch_untouched st b k); [exact Hst|]. apply (clean_untouched m); assumption. }
+  apply G. reflexivity.
+Qed.
+
+Definition wclean (m : N) (st : wstate) : Prop := clean m (concat (closed st)) /\ clean m (opn st).
+
+Lemma clean_concat_map m (l : list (list batch)) : clean m (concat (map (map (keep_not m)) l)).
+Proof.
+  unfold clean. induction l as [|e l IH]; cbn; [constructor|]. apply Forall_app. split; [|exact IH].
+  apply Forall_forall. intros b Hb. apply in_map_iff in Hb. destruct Hb as [b0 [<- _]]. apply keep_not_clean.
+Qed.
+
+Lemma clean_concat_map_sub m m' (l : list (list batch)) : clean m (concat l) -> clean m (concat (map (map (keep_not m')) l)).
+Proof.
+  unfold clean. induction l as [|e l IH]; cbn; intro H; [constructor|]. apply Forall_app in H. destruct H as [H1 H2].
+  apply Forall_app. split; [|apply IH; exact H2].
+  apply Forall_forall. intros b Hb. apply in_map_iff in Hb. destruct Hb as [b0 [<- Hb0]]. apply keep_not_sub.
+  rewrite Forall_forall in H1. apply H1. exact Hb0.
+Qed.
+
+Lemma wclean_step m st o :
+  wclean m st -> match o with WWrite b => has_mst m b = false | _ => True end -> wclean m (wstep st o).
+Proof.
+  intros [H1 H2] Ho. destruct o; unfold wstep, wclean; cbn [closed opn].
+  - split; [exact H1|]. apply Forall_app. split; [exact H2 | constructor; [exact Ho | constructor]].
+  - split; [|constructor]. rewrite concat_app. cbn [concat]. rewrite app_nil_r. apply Forall_app. split; assumption.
+  - destruct (Nat.ltb (nf st) (length (closed st))); cbn; split; assumption.
+  - destruct (Nat.ltb (nj st) (nf st)); cbn; split; assumption.
+  - destruct (Nat.eqb (nj st) (length (closed st)) && negb (existsb (has_mst m0) (opn st))); cbn [closed opn]; split; try assumption.
+    apply clean_concat_map_sub. exact H1.
+Qed.
+
+Lemma wrun_app ops1 ops2 : wrun (ops1 ++ ops2) = fold_left wstep ops2 (wrun ops1).
+Proof. unfold wrun. apply fold_left_app. Qed.
+
+Theorem dropped_stays_dropped n ops1 m ops2 k : 0 < n ->
+  drop_ready (wrun ops1) m = true ->
+  Forall (fun o => match o with WWrite b => has_mst m b = false | _ => True end) ops2 ->
+  mst_of k = m ->
+  recovered_repaired n (wrun (ops1 ++ WDrop m :: ops2)) k = None.
+Proof.
+  intros Hn Hr Hw Hk. rewrite (recovery_exact_repaired n _ Hn k).
+  apply (lww_clean m); [|exact Hk].
+  rewrite wrun_app. cbn [fold_left].
+  assert (H0 : wclean m (wstep (wrun ops1) (WDrop m))).
+  { unfold wstep. unfold drop_ready in Hr. rewrite Hr. unfold wclean. cbn [closed opn]. split; [apply clean_concat_map|].
+    apply andb_prop in Hr. destruct Hr as [_ Hr]. apply negb_true_iff in Hr.
+    unfold clean. apply Forall_forall. intros b Hb. destruct (has_mst m b) eqn:E; [|reflexivity].
+    exfalso. assert (existsb (has_mst m) (opn (wrun ops1)) = true) by (apply existsb_exists; exists b; auto). congruence. }
+  assert (G : forall st, wclean m st -> wclean m (fold_left wstep ops2 st)).
+  { induction Hw as [|o ops2 Ho _ IH]; intros st Hst; [exact Hst|]. cbn [fold_left]. apply IH. apply wclean_step; assumption. }
+  destruct (G _ H0) as [G1 G2]. unfold acked. apply Forall_app. split; assumption.
+Qed.
+
+Lemma keep_not_id m b : has_mst m b = false -> keep_not m b = b.
+Proof.
+  unfold has_mst, keep_not. induction b as [|c b IH]; [reflexivity|]. cbn. intro H. apply orb_false_iff in H. destruct H as [H1 H2].
+  rewrite H1. cbn. f_equal. apply IH. exact H2.
+Qed.
+
+(* an acknowledged drop removes exactly the cells of m from the acknowledged history *)
+Theorem drop_spec st m : drop_ready st m = true -> acked (wstep st (WDrop m)) = map (keep_not m) (acked st).
+Proof.
+  intro Hr. unfold wstep. unfold drop_ready in Hr. rewrite Hr. unfold acked. cbn [closed opn]. rewrite map_app. f_equal.
+  - rewrite concat_map. reflexivity.
+  - apply andb_prop in Hr. destruct Hr as [_ Hr]. apply negb_true_iff in Hr.
+    induction (opn st) as [|b l IH]; [reflexivity|]. cbn in Hr. apply orb_false_iff in Hr. destruct Hr as [H1 H2].
+    cbn [map]. rewrite (keep_not_id m b H1). f_equal. apply IH. exact H2.
+Qed.
+
+Lemma apply_keep_not st m b k : mst_of k <> m -> apply_batch st (keep_not m b) k = apply_batch st b k.
+Proof.
+  intro Hk. unfold apply_batch, keep_not. induction b as [|c b IH] using rev_ind; [reflexivity|].
+  rewrite filter_app, !fold_left_app. cbn [filter].
+  destruct (N.eqb (mst_of (fst c)) m) eqn:E; cbn [negb fold_left].
+  - rewrite put_apply.
+    destruct (key_eqb k (fst c)) eqn:E2; [|exact IH].
+    apply key_eqb_eq in E2. apply N.eqb_eq in E. subst k. contradiction.
+  - rewrite !put_apply. destruct (key_eqb k (fst c)); [reflexivity | exact IH].
+Qed.
+
+Lemma lww_keep_not m bs k : mst_of k <> m -> lww (map (keep_not m) bs) k = lww bs k.
+Proof.
+  intro Hk. unfold lww, lww_from. induction bs as [|b bs IH] using rev_ind; [reflexivity|].
+  rewrite map_app, !fold_left_app. cbn [map fold_left].
+  rewrite (apply_batch_over _ (keep_not m b) k), (apply_batch_over _ b k), !over_apply.
+  rewrite (apply_keep_not empty_store m b k Hk). destruct (apply_batch empty_store b k); [reflexivity | exact IH].
+Qed.
+
+(* ... and leaves every other measurement as it was *)
+Theorem drop_keeps_others st m k : drop_ready st m = true -> mst_of k <> m ->
+  lww (acked (wstep st (WDrop m))) k = lww (acked st) k.
+Proof. intros Hr Hk. rewrite (drop_spec st m Hr). apply lww_keep_not. exact Hk. Qed.
